@@ -128,8 +128,45 @@ class Tr:
         return "\n".join(lines + ["  " + ret])
 
 
+def _walk(n):
+    yield n
+    for c in n.get("inner", []) or []:
+        if isinstance(c, dict):
+            yield from _walk(c)
+
+
+def check_size_returns(repo, inc):
+    """obligation on source/ring_buffer.c: no function (helper or API) returns a 64-bit size / pointer difference through a
+    narrower integer return type (the model's sizes are unbounded naturals; a truncating helper breaks rings >= 4 GiB)"""
+    src = os.path.join(repo, "source", "ring_buffer.c")
+    text = open(src).read()
+    fns = {}
+    for prefix in ("s_", "aws_ring_buffer_"):
+        fns.update(cfun.dump_functions(f'#include "{src}"\n', prefix, inc + ["-I" + os.path.join(repo, "source")]))
+    for name, fn in fns.items():
+        if not re.search(r"\b" + re.escape(name) + r"\s*\(", text):
+            continue
+        rq = fn["type"]["qualType"].split("(")[0].strip()
+        rt = cfun._scalar(rq)
+        if rt is None or rq in ("bool", "_Bool"):
+            continue
+        for node in _walk(fn):
+            if node.get("kind") != "ReturnStmt" or not node.get("inner"):
+                continue
+            e = node["inner"][0]
+            if e.get("kind") == "ImplicitCastExpr" and e.get("castKind") == "IntegralCast":
+                try:
+                    it = cfun.ctype_of(e["inner"][0])
+                except GenError:
+                    continue
+                if isinstance(it, tuple) and it[0] != "ptr" and it[0] > rt[0]:
+                    raise GenError(f"{name}() in ring_buffer.c returns a {it[0]}-bit value "
+                                   f"({e['inner'][0]['type']['qualType']}) through the {rt[0]}-bit return type `{rq}`: sizes are truncated")
+
+
 def generate(repo, cfg_inc):
     inc = ["-I" + os.path.join(repo, "include"), "-I" + cfg_inc]
+    check_size_returns(repo, inc)
     fns = cfun.dump_functions('#include <aws/common/ring_buffer.h>\n', "aws_ring_buffer_", inc)
     for need in ("aws_ring_buffer_check_atomic_ptr", "aws_ring_buffer_is_valid", "aws_ring_buffer_is_empty"):
         if need not in fns:
